@@ -13,6 +13,10 @@ struct B {
 }
 
 fn val(r: &mut ChaChaRng, m: i64) -> Val {
+    if m <= 8 {
+        // "small" programs: values and coefficients from -2 .. 3, so that free constraints hold (or fail) by the values themselves
+        return Val::I(r.gen_range(-2..=3));
+    }
     // bias towards the special values 0, 1, -1
     match r.gen_range(0..10) {
         0 => Val::I(0),
@@ -22,6 +26,9 @@ fn val(r: &mut ChaChaRng, m: i64) -> Val {
     }
 }
 fn nzval(r: &mut ChaChaRng, m: i64) -> Val {
+    if m <= 8 {
+        return Val::I([-2, -1, 1, 2, 3][r.gen_range(0..5)]);
+    }
     Val::I(r.gen_range(1..m))
 }
 
@@ -92,7 +99,7 @@ fn rand_ops(r: &mut ChaChaRng, b: &mut B, m: i64, nops: usize, in_cb: bool, ncbs
             }
             56..=80 => {
                 let lc = rand_lc(r, b, m, in_cb);
-                if allow_bad && r.gen_bool(0.15) {
+                if allow_bad && r.gen_bool(if m <= 8 { 0.7 } else { 0.15 }) {
                     // free constraint: satisfied only by luck
                     Op::Con { lc, fix: None, delta: None, split: None }
                 } else {
@@ -134,9 +141,12 @@ fn pad2(n: usize) -> usize {
 pub fn gen_program(r: &mut ChaChaRng, m: i64, kind: &str, id: String) -> Program {
     let mut b = B { nv: 0, pending: None, ncommit: 0, nchal: 0, nfix: 0 };
     let mut cbs: Vec<Vec<Op>> = vec![];
-    let allow_bad = kind == "free";
+    let allow_bad = kind == "free" || kind == "small";
+    // "small": free constraints over small values and coefficients - whether the statement holds is decided by the assignment alone
+    // (no by-construction constants); the specification's Satisfied() is the oracle for the verdict in both directions
+    let m = if kind == "small" { 4 } else { m };
     // (the combiner attack only bites where no later challenge depends on the two scalars: at most one gate)
-    let nops = if kind == "rcraft" { r.gen_range(0..4) } else { r.gen_range(0..9) };
+    let nops = if kind == "rcraft" { r.gen_range(0..4) } else if kind == "small" { r.gen_range(1..7) } else { r.gen_range(0..9) };
     let mut ops = rand_ops(r, &mut b, m, nops, false, &mut cbs, allow_bad);
     let n1 = b.nv;
     // phase switch: pending cleared
